@@ -57,22 +57,34 @@ structure Sound (c : RepCtx) (pto : Int) (o : SegObs) : Prop where
 theorem parseData_sound {c : RepCtx} {pto : Int} {o : SegObs} (h : Sound c pto o) :
     parseData c o = ([], true) := by
   have h1 := h.encVideo; have h2 := h.encOther; have h3 := h.iv
+  have h4 := h.trunFirst; have h5 := h.trunLast
   unfold parseData
   cases hv : c.video <;> cases hi : c.infoEncrypted <;> cases ho : c.optEncrypted <;>
     cases hk : c.ivKnown <;>
-    simp_all [h.atoms, h.moof, h.mdat, h.emsg, h.trunFirst, h.trunLast]
+    simp_all [h.atoms, h.moof, h.mdat, h.emsg]
 
 theorem obsDuration_sound {c : RepCtx} {pto : Int} {o : SegObs} (h : Sound c pto o) :
     obsDuration c o = sumDurs o.samples := by
   unfold obsDuration; rw [h.mediaTs]; simp
 
 /-- under `Sound` only the three timing checks can fail -/
-theorem validateSegment_sound {c : RepCtx} {e : SegExp} {o : SegObs} (h : Sound c e.pto o) :
+theorem validateSegment_sound {c : RepCtx} (e : SegExp) {o : SegObs} {pto : Int}
+    (hp : e.pto = pto) (h : Sound c pto o) :
     validateSegment c e o = seqErrs e o ++ decodeErrs e o ++ durErrs c e o := by
+  subst hp
   have hd := h.dashTs
   unfold validateSegment segTail ctypeErrs
   rw [parseData_sound h, h.enc, h.pts, h.mediaTs]
   simp [h.status, h.ctype, h.moov, hd]
+
+/-- the same with the expectation spelled out field by field (the form `simp` meets) -/
+theorem validateSegment_sound_mk {c : RepCtx} {o : SegObs} (sq dt : Option Int) (du : Option Nat)
+    (tol : Nat) (pto : Int) (h : Sound c pto o) :
+    validateSegment c { expSeq := sq, expDecode := dt, expDur := du, tol := tol, pto := pto } o
+      = seqErrs { expSeq := sq, expDecode := dt, expDur := du, tol := tol, pto := pto } o ++
+        decodeErrs { expSeq := sq, expDecode := dt, expDur := du, tol := tol, pto := pto } o ++
+        durErrs c { expSeq := sq, expDecode := dt, expDur := du, tol := tol, pto := pto } o :=
+  validateSegment_sound _ rfl h
 
 theorem segResult_sound {c : RepCtx} {pto : Int} {o : SegObs} (h : Sound c pto o) :
     segResult c o = { seq := some o.seq, duration := some (sumDurs o.samples),
@@ -125,26 +137,81 @@ theorem repLoop_clean (c : RepCtx) (need : Option Nat) (Inv : Nat → Chain → 
     simp only [repLoop] at hp
     rcases List.mem_cons.mp hp with hp | hp
     · rw [hp]; exact h0.1
-    · split at hp
-      · obtain ⟨q, _, hq⟩ := List.mem_map.mp hp
-        rw [← hq]
-      · refine ih (i + 1) _ h0.2 ?_ p hp
+    · have hrec : p ∈ repLoop c need (stepSeg c ch s oc).2.2 rest → p.2 = [] := by
+        intro hp'
+        refine ih (i + 1) _ h0.2 ?_ p hp'
         intro j hj ch' hinv'
         have := hstep (j + 1) (by simp; omega) ch' (by rw [← Nat.add_assoc]; simpa [Nat.add_right_comm] using hinv')
         simp only [List.getElem_cons_succ] at this
         have e1 : i + (j + 1) + 1 = i + 1 + j + 1 := by omega
         rw [e1] at this
         exact this
+      have hmap : p ∈ rest.map (fun q => (q.1, ([] : List SegErr))) → p.2 = [] := by
+        intro hp'
+        obtain ⟨q, _, hq⟩ := List.mem_map.mp hp'
+        rw [← hq]
+      cases need with
+      | none => exact hrec (by simpa using hp)
+      | some n =>
+        simp only at hp
+        split at hp
+        · exact hmap hp
+        · exact hrec hp
 
 theorem located_nil_of_clean (l : List (SegState × List SegErr)) (h : ∀ p ∈ l, p.2 = []) :
     located l = [] := by
   unfold located
   rw [List.flatMap_eq_nil_iff]
   intro p hp
-  have := h p.1 (by
-    have := List.mem_zipIdx hp
-    exact (List.mem_iff_getElem.mpr ⟨_, this.2.1, by simpa using this.2.2.symm⟩) )
+  have := h p.1 (List.fst_mem_of_mem_zipIdx hp)
   simp [this]
+
+/-! ### single steps of the loop on freshly generated, fetched segments -/
+
+/-- a `$Time$` step: expected decode time known from the manifest, no expected number -/
+theorem step_time (c : RepCtx) (ch : Chain) (tol du : Nat) (t : Int) (o : SegObs)
+    (hs : Sound c 0 o) (htf : almostEqual t o.tfdt tol = true)
+    (hinv : ch.nextSeq = none ∨ ch.nextSeq = some (o.seq : Int))
+    (hd : almostEqual (du : Int) (sumDurs o.samples) c.dashTs = true) :
+    let e : SegExp := { expSeq := none, expDecode := some t, expDur := some du, tol := tol, pto := 0 }
+    (stepSeg c ch (SegState.fresh e) (Outcome.fetched o)).2.1 = [] ∧
+    (stepSeg c ch (SegState.fresh e) (Outcome.fetched o)).2.2.nextSeq = some ((o.seq : Int) + 1) := by
+  rcases hinv with h | h
+  · simp only [stepSeg, inherit, SegState.fresh, h]
+    simp [validateSegment_sound_mk _ _ _ _ _ hs, segResult_sound hs, seqErrs, decodeErrs, durErrs,
+      obsDuration_sound hs, hd, htf]
+  · simp only [stepSeg, inherit, SegState.fresh, h]
+    simp [validateSegment_sound_mk _ _ _ _ _ hs, segResult_sound hs, seqErrs, decodeErrs, durErrs,
+      obsDuration_sound hs, hd, htf]
+
+/-- a `$Number$` step -/
+theorem step_number (c : RepCtx) (ch : Chain) (tol sd : Nat) (N : Int) (o : SegObs)
+    (hs : Sound c 0 o) (hseq : (o.seq : Int) = N)
+    (htd : c.tmplDuration = some sd)
+    (hinv : (ch.nextSeq = none ∧ ch.nextDecode = none) ∨
+      (ch.nextSeq = some N ∧ ∃ nd, ch.nextDecode = some nd ∧
+        almostEqual ((N - c.startNumber) * sd) nd (sd / 2) = true ∧
+        almostEqual nd o.tfdt tol = true))
+    (hd : almostEqual (sd : Int) (sumDurs o.samples) c.dashTs = true) :
+    let e : SegExp := { expSeq := some N, expDecode := none, expDur := some sd, tol := tol, pto := 0 }
+    (stepSeg c ch (SegState.fresh e) (Outcome.fetched o)).2.1 = [] ∧
+    (stepSeg c ch (SegState.fresh e) (Outcome.fetched o)).2.2.nextSeq = some (N + 1) ∧
+    (stepSeg c ch (SegState.fresh e) (Outcome.fetched o)).2.2.nextDecode
+      = some ((o.tfdt : Int) + (sumDurs o.samples : Int)) := by
+  have hm := hs.mediaTs
+  have hdz := hs.dashTs
+  rcases hinv with ⟨h1, h2⟩ | ⟨h1, nd, h2, h3, h4⟩
+  · simp only [stepSeg, inherit, SegState.fresh, h1, h2]
+    simp [validateSegment_sound_mk _ _ _ _ _ hs, segResult_sound hs, seqErrs, decodeErrs, durErrs,
+      obsDuration_sound hs, hd, hseq]
+  · simp only [stepSeg, inherit, SegState.fresh, h1, h2]
+    have hexp : (N - c.startNumber) * (sd : Int) * (c.dashTs : Int) / (c.dashTs : Int)
+        = (N - c.startNumber) * sd := Int.mul_ediv_cancel _ (by omega)
+    simp [validateSegment_sound_mk _ _ _ _ _ hs, segResult_sound hs, seqErrs, decodeErrs, durErrs,
+      obsDuration_sound hs, hd, hseq, hm, htd, hexp, h3, h4]
+/-- a pass in which every generated segment is fetched -/
+def fetchAll (exps : List SegExp) (obs : List SegObs) : List (SegState × Outcome) :=
+  List.zipWith (fun e o => (SegState.fresh e, Outcome.fetched o)) exps obs
 
 /-! ### SegmentTimeline expansion = DASH's -/
 
